@@ -97,7 +97,7 @@ def run_store(ctx, binary):
     else:
         corpus = [l.strip() for l in open(os.path.join(VERIF, "props/C06/corpus.ops"))
                   if l.strip() and not l.startswith("#")]
-        ops = corpus + gen_store_ops(ctx.rng, ctx.scale(400, 20000))
+        ops = corpus + gen_store_ops(ctx.rng, ctx.scale(400, 8000))
     impl = ctx.go_run(binary, "TestVerifC06Store", ops)
     model = ctx.lean_run(ops)
     ok = True
@@ -234,7 +234,7 @@ def run_protocol(ctx, binary, drv):
         corpus = [l.strip() for l in open(os.path.join(VERIF, "props/C06/corpus_proto.ops"))
                   if l.strip() and not l.startswith("#")]
         gens = []
-        for _ in range(ctx.scale(500, 15000)):
+        for _ in range(ctx.scale(500, 6000)):
             quiet = ctx.rng.random() < 0.5
             ln = ctx.rng.choice([4, 8, 12, 18, 26, 40])
             gens.append(f"pgen quiet={int(quiet)} | " + " ".join(str(ctx.rng.randint(0, 9999)) for _ in range(ln)))
